@@ -12,7 +12,7 @@ RULE = ("all thread schedules up to a preemption bound of programs with 1 reader
         "objects bound to one file, unbuffered and inside a backend-wide buffered context of each strategy; oracle = the "
         "reader's value, the writer's results and the final file equal those of some serial position; non-trivial = "
         "distinct observations")
-BOUNDS = {"quick": "6 reads x 4 writes x 2 topologies x {JSON, Buffered-in-context, MemoryBuffered-in-context} x {dict, list}, bound 1",
+BOUNDS = {"quick": "6 reads x 4 writes x topologies {same object, two objects, two objects on a missing file, two objects that have not loaded yet; in-context also after an earlier complete session} x {JSON, Buffered-in-context, MemoryBuffered-in-context} x {dict, list}, bound 1; getitem||setitem on two fresh JSONDict objects at bound 2",
           "thorough": "adds 2-op writers, 2 readers || 1 writer, Attr families, bound 2 on a core"}
 ASSUMPTIONS = c09.ASSUMPTIONS + ["results that are live synced containers are observed by kind only"]
 
@@ -135,6 +135,11 @@ def plan(tier, seed):
                         for w in CORE_W[k][:2]:
                             p2.append(build(c, topo, r, w, ctx))
                             p1.append(build(c, topo, r, w, ctx, second_reader=CORE_R[k][3]))
+    if tier == "quick":
+        # a small bound-2 core in the quick tier: a reader that opens two files (or one file twice) can only be caught
+        # between the writer's steps with two preemptions
+        for c, r, w in (("JSONDict", "getitem", "setitem"),):
+            p2.append(build(c, "two-objects-fresh", r, w, None))
     p1 = [x for x in p1 if x is not None]
     p2 = [x for x in p2 if x is not None]
     tasks = []
